@@ -5,7 +5,9 @@
                                     does not assign)                                   -> D
      T <hex text> <Kind> <Field>    a text; Kind/Field = the record type and field the harness varied
                                     ("-" when the case is not a single-field change)
-        -> ERR                                       the model's reader reports an error
+        -> ERR <r><b>                                the model's reader reports an error; r = 1: the text read with
+                                                     validation skipped holds a record that fails its rules;
+                                                     b = 1: no such record, but a batch fails the batch arithmetic
            OK <u> <rule> <tree>                      accepted; <rule> = first failing rule of
                                                      File.Validate() on the result (0 = valid);
            LINGER <u> <rule> <tree>                  accepted, a batch was never closed
@@ -71,5 +73,13 @@ let () =
        | Some (f, lg) ->
          let rule = string_of_z (rule_code (validate_file gen_tables (p_file f))) in
          print_endline (String.concat " " [(if lg then "LINGER" else "OK"); unk kind field; rule; show_file f])
-       | None -> print_endline "ERR")
+       | None ->
+         (* why: the text read with validation skipped (Dispatch.read_text) holds a record that fails its
+            rules (r) / only a batch that fails the batch arithmetic (b) *)
+         let r, b = match read_text all_layouts (bytes_of_hex h) with
+           | Some g ->
+             let r = not (all_file (rec_passb all_rules) g) in
+             (r, (not r) && not (batches_okb gen_tables g))
+           | None -> (false, false) in
+         print_endline (Printf.sprintf "ERR %d%d" (if r then 1 else 0) (if b then 1 else 0)))
     | _ -> print_endline "?")
